@@ -89,12 +89,14 @@ type BtcConfig struct {
 // raw chain config
 func NewBtcConfig(chainConfig map[string]interface{}) (*BtcConfig, error) {
 	var c RawBtcConfig
-	err := mapstructure.Decode(chainConfig, &c)
+	// defaults first: decoding then overwrites them with every value that was written,
+	// so an explicit zero reaches Validate instead of being replaced by the default
+	err := defaults.Set(&c)
 	if err != nil {
 		return nil, err
 	}
 
-	err = defaults.Set(&c)
+	err = mapstructure.Decode(chainConfig, &c)
 	if err != nil {
 		return nil, err
 	}
